@@ -379,9 +379,11 @@ func (bf *buffer) ReadWait(n int) ([]byte, error) {
 	// greater than the next position we read to.
 	next := cpos + int64(n)
 
-	// If there's no data, then let's wait until there is some data
+	// If there's no data, then let's wait until there is some data. The producer
+	// cursor must be (re-)read under the lock before waiting: a commit signalled
+	// between an earlier read and Lock would otherwise be missed.
 	bf.ccond.L.Lock()
-	for ; next > ppos; ppos = bf.pseq.get() {
+	for ppos = bf.pseq.get(); next > ppos; ppos = bf.pseq.get() {
 		if bf.isDone() {
 			return nil, io.EOF
 		}
